@@ -226,6 +226,9 @@ def random_func_data(fd, space, rng):
     """Data (flat vectors) for a functional in C11 (no optimality needed)."""
     n = flat.rdim(space)
     kind = fd['kind']
+    if kind == 'sepsum':
+        return {'parts': [random_func_data(p, space[i], rng)
+                          for i, p in enumerate(fd['parts'])]}
     if kind in ('l2sq', 'indzero'):
         return {'b': np.round(rng.standard_normal(n), 3)}
     if kind == 'box':
@@ -244,6 +247,10 @@ def make_functional(fd, space, data=None):
     """ODL functional for descriptor ``fd`` on ``space``."""
     data = data or {}
     kind = fd['kind']
+    if kind == 'sepsum':
+        return S.SeparableSum(*[make_functional(p, space[i],
+                                                data['parts'][i])
+                                for i, p in enumerate(fd['parts'])])
     lam = float(fd.get('lam', 1.0))
     form = fd.get('form', 'left')
 
@@ -611,6 +618,7 @@ def build_nonsmooth(pd):
     n = dX.size
     P.A = None if pd.get('A') is None else LinOp(
         build_operator(pd['A'], X), dX)
+    P.has_data = bool(pd.get('data', True))
     zero_cert = bool(pd.get('zero_cert'))
     nullspace = bool(pd.get('nullspace'))
 
@@ -681,7 +689,24 @@ def build_nonsmooth(pd):
     c += P.sstar
 
     # ---- data term: A^* r = -c,  b = A x* - r
-    if P.A is None:
+    if not P.has_data:
+        # equality-constrained family: the (single) constraint term
+        # L x = b with injective L makes x* the only feasible point; its
+        # multiplier balances the optimality system
+        eq = [T for T in P.terms if T.fd['kind'] == 'indzero']
+        if len(eq) != 1 or P.A is not None:
+            raise HarnessError('no-data problems need one indzero term')
+        T = eq[0]
+        sv = np.linalg.svd(sym_matrix(T.lin.M, dX, T.lin.dY),
+                           compute_uv=False)
+        if len(sv) < n or sv[n - 1] <= 1e-9 * sv[0]:
+            raise HarnessError('constraint operator must be injective')
+        c -= T.lin.adj @ T.ystar
+        T.ystar = -np.linalg.pinv(T.lin.adj) @ c
+        P.b = None
+        P.normA, P.sminA = 0.0, 0.0
+        P.cond_eq = float(sv[0] / sv[n - 1])
+    elif P.A is None:
         P.b = xstar + c
         P.normA, P.sminA = 1.0, 1.0
     else:
@@ -701,7 +726,8 @@ def build_nonsmooth(pd):
     if pos or any(T.fd['kind'] == 'kl' for T in P.terms):
         x0 = np.abs(x0) + 0.1 * xn
     P.x0 = x0
-    P.scale = float(max(xn, np.max(np.abs(P.b), initial=0.0)))
+    P.scale = float(max(xn, np.max(np.abs(P.b), initial=0.0)
+                        if P.b is not None else 0.0))
     return P
 
 
@@ -713,7 +739,9 @@ def kkt_sets(P, x, delta):
     KKT residual is ``min ||const + sum B v||`` over v in the sets.
     """
     n = x.size
-    if P.A is None:
+    if not P.has_data:
+        const = np.zeros(n)
+    elif P.A is None:
         const = x - P.b
     else:
         const = P.A.adj @ (P.A.M @ x - P.b)
@@ -938,4 +966,84 @@ def func_desc_st(draw, kinds, power_space=False, leaf=True):
         fd['gamma'] = draw(st.sampled_from([0.5, 0.1, 1.0, 2.0]))
     if kind == 'box':
         fd['scalar_bounds'] = draw(st.integers(0, 3)) == 0
+    return fd
+
+
+# --------------------------------------------------------------------------
+# space classes (structure of a space known at strategy time)
+#   {'t': 'leaf', 'n': n} | {'t': 'power', 'k': k, 'base': cls}
+#   | {'t': 'prod', 'parts': [cls, ...]}
+
+def space_class(sd):
+    if sd['kind'] == 'pspace':
+        if sd.get('power') is not None:
+            return {'t': 'power', 'k': int(sd['power']),
+                    'base': space_class(sd['base'])}
+        parts = [space_class(p) for p in sd['parts']]
+        return {'t': 'prod', 'parts': parts}
+    return {'t': 'leaf', 'n': build.space_size(sd),
+            'ndim': len(build.space_shape(sd)), 'kind': sd['kind']}
+
+
+def class_dim(cls):
+    if cls['t'] == 'leaf':
+        return cls['n']
+    if cls['t'] == 'power':
+        return cls['k'] * class_dim(cls['base'])
+    return sum(class_dim(p) for p in cls['parts'])
+
+
+def range_class(od, dom):
+    """Class of the range of the operator ``od`` on a domain of class
+    ``dom``."""
+    kind = od['kind']
+    if kind in ('matrix', 'posmatrix'):
+        m = len(od['data']) if 'data' in od else int(od['m'])
+        return {'t': 'leaf', 'n': m, 'ndim': 1, 'kind': 'tensor'}
+    if kind in ('identity', 'scaling', 'multiply'):
+        return dom
+    if kind == 'gradient':
+        return {'t': 'power', 'k': dom['ndim'], 'base': dom}
+    if kind == 'divergence':
+        return dom['base']
+    if kind == 'broadcast':
+        parts = [range_class(o, dom) for o in od['ops']]
+        if all(p == parts[0] for p in parts):
+            return {'t': 'power', 'k': len(parts), 'base': parts[0]}
+        return {'t': 'prod', 'parts': parts}
+    if kind == 'reduction':
+        comps = dom['parts'] if dom['t'] == 'prod' else \
+            [dom['base']] * dom['k']
+        return range_class(od['ops'][0], comps[0])
+    if kind == 'pso':
+        comps = dom['parts'] if dom['t'] == 'prod' else \
+            [dom['base']] * dom['k']
+        parts = []
+        for row in od['blocks']:
+            j = [i for i, o in enumerate(row) if o is not None][0]
+            parts.append(range_class(row[j], comps[j]))
+        if all(p == parts[0] for p in parts):
+            return {'t': 'power', 'k': len(parts), 'base': parts[0]}
+        return {'t': 'prod', 'parts': parts}
+    raise HarnessError('unknown operator kind {!r}'.format(kind))
+
+
+ALL_KINDS = ('l1', 'l2', 'l2sq', 'box', 'nonneg', 'huber', 'kl', 'zero',
+             'groupl1')
+
+
+@st.composite
+def func_on_class_st(draw, cls, kinds=ALL_KINDS, sepsum=True):
+    """Functional descriptor admissible on a space of class ``cls``."""
+    leaf = cls['t'] == 'leaf'
+    power = cls['t'] == 'power' and cls['base']['t'] == 'leaf'
+    if not leaf and sepsum and draw(st.integers(0, 3)) == 0:
+        comps = cls['parts'] if cls['t'] == 'prod' else \
+            [cls['base']] * cls['k']
+        return {'kind': 'sepsum',
+                'parts': [draw(func_on_class_st(c, kinds, sepsum=False))
+                          for c in comps]}
+    fd = draw(func_desc_st(kinds, power_space=power, leaf=leaf))
+    if not leaf and fd.get('scalar_bounds'):
+        fd['scalar_bounds'] = False
     return fd
